@@ -55,6 +55,9 @@ def c07_work(item, ctx):
         run_engine(res, exe, ["c08plain", F.seed_for(ctx["seed"], "C07deferred", idx) & 0xFFFFFFFF, nseq, maxops], "c07")
         for i in range(0, nseq, 50):
             res.nt("deferred", idx, i)
+    elif kind == "witness":
+        run_engine(res, exe, ["witness"], "c07")
+        res.nt("witness")
     elif kind == "rand":
         _, idx, nseq, nops = item
         run_engine(res, exe, ["c07rand", F.seed_for(ctx["seed"], "C07", idx) & 0xFFFFFFFF, nseq, nops], "c07")
@@ -137,6 +140,7 @@ def for_property(prop):
             items += [("rand", i, 300 if q else 20000, 1000) for i in range(12 if q else 64)]
             items += [("conv", i, 20 if q else 300) for i in range(4 if q else 16)]
             items += [("deferred", i, 3000 if q else 60000, 14) for i in range(4 if q else 16)]
+            items += [("witness", 0, 0)]
             return items
         m.plan = plan
 
